@@ -1541,6 +1541,9 @@ namespace bloch::runtime {
         obj->destroyed = true;
         if (runUserDestructor && obj->cls) {
             bool savedReturn = m_hasReturn;
+            // A destructor may run while a 'return' is unwinding the scopes around it; calls
+            // made by the destructor body use the return slot themselves.
+            Value savedReturnValue = m_returnValue;
             for (RuntimeClass* cur = obj->cls; cur; cur = cur->base) {
                 if (!cur->destructorDecl || !cur->destructorDecl->body)
                     continue;
@@ -1573,6 +1576,7 @@ namespace bloch::runtime {
                 m_currentClassCtx = prevClass;
             }
             m_hasReturn = savedReturn;
+            m_returnValue = std::move(savedReturnValue);
         }
         // Reset tracked qubits
         if (obj->cls) {
